@@ -355,7 +355,8 @@ func (s *Server) blobUploadMount(repoSrcStr, repoTgtStr, digStr string, w http.R
 	}
 	err = errors.Join(rdr.Close(), bc.Close())
 	if err != nil {
-		return err
+		// a failed close does not remove the session
+		return errors.Join(err, bc.Cancel())
 	}
 	// write the success status and return nil
 	loc, err := url.JoinPath("/v2", repoTgtStr, "blobs", dig.String())
@@ -535,6 +536,17 @@ func (s *Server) blobUploadPut(repoStr, sessionID string) http.HandlerFunc {
 		}
 		err = bc.Close()
 		if err != nil {
+			// a failed close does not remove the session
+			if errCancel := bc.Cancel(); errCancel != nil {
+				s.log.Error("canceling upload", "err", errCancel, "repo", repoStr, "sessionID", sessionID)
+			}
+			if errors.Is(err, types.ErrDigestMismatch) {
+				// the digest is valid for the content but differs from the digest given when the session was created
+				w.WriteHeader(http.StatusBadRequest)
+				_ = types.ErrRespJSON(w, types.ErrInfoBlobUploadInvalid("digest does not match the digest of the upload session"))
+				s.log.Debug("digest does not match session", "err", err, "repo", repoStr, "sessionID", sessionID)
+				return
+			}
 			w.WriteHeader(http.StatusInternalServerError)
 			s.log.Error("failed to close blob upload", "err", err, "repo", repoStr, "sessionID", sessionID)
 			return
